@@ -4,6 +4,8 @@ import (
 	"fmt"
 	"github.com/huderlem/poryscript/lexer"
 	"github.com/huderlem/poryscript/token"
+	"os"
+	"path/filepath"
 	"runtime"
 	"strings"
 	"sync"
@@ -255,6 +257,21 @@ func checkC18(c *Ctx) {
 			}
 		}
 		c.Cov("condition_neighbourhood_size", int64(n))
+	}
+	// every program literal of the repository's own tests (about ninety of them malformed, one per
+	// error message): their errors must be located too, in both modes
+	for i, lit := range corpusLiterals() {
+		opts := optSets(genAutoVar())
+		inputs = append(inputs, robustInput{lit, opts[i%len(opts)]})
+	}
+	// a font config that is not JSON
+	if dir, err := newScratch("c18fc"); err == nil {
+		defer os.RemoveAll(dir)
+		badfc := filepath.Join(dir, "broken.json")
+		os.WriteFile(badfc, []byte("{ \"defaultFontId\": \"x\", \"fonts\": [ oops"), 0o644)
+		for _, src := range []string{"text T {\n    format(\"Hello {PLAYER} there\")\n}\n", "script S {\n    msgbox(\"plain\")\n}\n"} {
+			inputs = append(inputs, robustInput{src, Opts{Optimize: true, FontConfig: badfc}})
+		}
 	}
 	// a few long / deep inputs (prompt termination and bounded growth)
 	deep := strings.Repeat("if (flag(A)) { ", 400) + "x" + strings.Repeat(" }", 400)
